@@ -2,17 +2,21 @@
 //! msimc — bounded-exhaustive model checking of rust-msi properties C01..C20.
 //! Usage: msimc <ID> <quick|thorough> | msimc replay <file> | msimc selftest
 
+mod c02;
 mod c06;
 mod c07;
 mod c10;
 mod c12;
 mod c13;
 mod c14;
+mod c15;
+mod c16;
 mod c17;
 mod c18;
 mod c19;
 mod dec;
 mod e1;
+mod enc;
 mod e1checks;
 mod ops;
 mod snapshot;
@@ -52,6 +56,9 @@ fn run(args: &[String]) -> i32 {
                 "C13" => c13::replay(r),
                 "C07" => c07::replay(r),
                 "C12" => c12::replay(r),
+                "C15" => c15::replay(r),
+                "C02" => c02::replay(r),
+                "C16" => c16::replay(r),
                 "C06" => c06::replay(r),
                 "C10" if r["kind"] == "c10-case" => c10::replay(r),
                 "C14" => c14::replay(r),
@@ -86,6 +93,9 @@ fn run(args: &[String]) -> i32 {
                 "C10" => c10::run(tier),
                 "C07" => c07::run(tier),
                 "C12" => c12::run(tier),
+                "C15" => c15::run_check(tier),
+                "C02" => c02::run(tier),
+                "C16" => c16::run(tier),
                 "C06" => c06::run(tier),
                 _ => {
                     eprintln!("unknown check {}", id);
